@@ -452,6 +452,9 @@ pub fn replay(path: &str, quiet: bool, lookup: impl Fn(&str) -> Option<&'static 
             println!("  {l}");
         }
     }
+    if !quiet {
+        println!("# replay: probes={:?} faults={:?} counters={:?}", out.probes, out.faults, out.counters);
+    }
     match &out.violation {
         Some(viol) => {
             let same_clause = Some(viol.clause.as_str()) == v["clause"].as_str();
